@@ -31,6 +31,9 @@ CLAIMED = {
  "C08": dict(engine="e4-asm", design="4/C08",
    text="Every FOR/ROF structure tree up to an item bound (depth <=3, counts 0..6 / 0..3, <=40 block expansions, counters inside operand arithmetic, block labels used inside and after the block, counts spelled via EQU or enclosing counter), and sequences of 1..14 blocks: CompileWarrior(p), CompileWarrior(unroll(p)) and meaning(unroll(p)) must agree.",
    technique="bounded exhaustive enumeration of FOR structure trees + differential against manual unrolling and denotational reference"),
+ "C06": dict(engine="e4-asm", design="4/C06",
+   text="The structural predicate (fields < M, entry point inside the code, length <= maximum, defined enum values; under ICWS'88 an independent legality table with the implied modifier) is evaluated on every input that assembles among the C03 and C08 spaces and targeted grids around every range check (ORG/END k around the length in 5 spellings, lengths around the maximum written out and through FOR, all opcode x modifier x 9 x 10 mode combinations under ICWS'88, extreme literals).",
+   technique="bounded exhaustive input enumeration + invariant (predicate) on every accepted output"),
 }
 
 PENDING = {
